@@ -191,7 +191,12 @@ def csv_tie(ctx, c, reread, impl, lines, case):
     if len(lines) < 2 or not lines[0].startswith('#') or not lines[1].startswith('#'):
         ctx.count('csv.write.no-comment-lines')
         return
-    rows = [['term_a', 'term_b', 'ic_mica']] + [[a, b, repr(float(v)) if type(v) is float else str(v)] for a, b, v in c.items()]
+    # the rows in the order and the spelling the FILE has them (as the model read them a moment ago): which order a writer lists the items in and
+    # how it spells a value are not the csv layer's business - that the re-read container equals the written one was compared above
+    if 'err' in rep['csv'] or len(rep['csv']['rows']) != len(list(c.items())) or any(len(r) != len(rep['csv']['fieldnames']) for r in rep['csv']['rows']):
+        ctx.count('csv.write.not-compared(the file does not read as one row per item)')
+        return
+    rows = [rep['csv']['fieldnames']] + [[v for _, v in row] for row in rep['csv']['rows']]
     base = {'op': 'sim.write_file', 'title': lines[0][1:].rstrip('\r\n'), 'meta_line': lines[1][1:].rstrip('\r\n'), 'rows': rows}
     outs = run_driver([dict(base, quote_all=False), dict(base, quote_all=True)])
     norm = lambda ls: [l if i > 1 else l.rstrip('\r\n') for i, l in enumerate(ls)]
